@@ -142,13 +142,15 @@ fn text_act(ilt: bool, top: Option<&String>) -> u8 {
 
 /// The hypotheses of `mdParse_inbounds` / `mdParse_sorted_covering` / `mdParse_total` (`EventsOK`,
 /// `solidOK` of Model/Markdown.lean), clause by clause, on a real event list. Returns the two
-/// verdicts; the same two are computed by the model from its own definitions (op `evok`).
-pub fn events_monitors(text: &str, ilt: bool, evs: &[Ev], out: &mut Out) -> (bool, bool) {
+/// verdicts and `StartsOK` (the hypothesis of `mdParse_total`); the same three are computed by the
+/// model from its own definitions (op `evok`).
+pub fn events_monitors(text: &str, ilt: bool, evs: &[Ev], out: &mut Out) -> (bool, bool, bool) {
     let mut boundaries = true;
     let mut monotone = true;
     let mut disjoint = true;
     let mut fits = true;
     let mut solid = true;
+    let mut starts = true; // StartsOK: an event start ahead of the cursor can be sliced
     let mut cur = 0usize; // traversed_bytes
     let mut le = 0usize; // range end of the last token-producing event
     let mut stack: Vec<String> = vec![];
@@ -179,6 +181,7 @@ pub fn events_monitors(text: &str, ilt: bool, evs: &[Ev], out: &mut Out) -> (boo
                 boundaries &= e.rs <= cur || (e.rs <= text.len() && text.is_char_boundary(e.rs));
             }
         }
+        starts &= e.rs <= cur || (e.rs <= text.len() && text.is_char_boundary(e.rs));
         cur = cur.max(e.rs);
         match &e.kind {
             EvK::Start(t) => stack.push(t.clone()),
@@ -193,7 +196,7 @@ pub fn events_monitors(text: &str, ilt: bool, evs: &[Ev], out: &mut Out) -> (boo
     out.monitors.push(("EventsOK: token-producing events have disjoint, increasing ranges".into(), disjoint));
     out.monitors.push(("EventsOK: text length ≤ range length (chars); a break's range has ≥ 1 char".into(), fits));
     out.monitors.push(("solidOK: Code / Math / Html / unlintable Text events are not empty".into(), solid));
-    (boundaries && monotone && disjoint && fits, solid)
+    (boundaries && monotone && disjoint && fits, solid, starts)
 }
 
 /// Which recorded pulldown-cmark findings apply to an event list (decided on the events alone).
@@ -209,13 +212,16 @@ pub struct Findings {
     pub empty_solid: bool,
     pub eok: bool,
     pub sok: bool,
+    pub stok: bool,
 }
 
 /// evaluates the assumption monitors and sets the finding-matching lists aside
 pub fn findings_and_monitors(text: &str, ilt: bool, evs: &[Ev], out: &mut Out) -> Findings {
     let mut scratch = new_out();
-    let (eok, sok) = events_monitors(text, ilt, evs, &mut scratch);
-    let f = Findings { wikilink: evs.iter().any(|e| e.wiki) && !eok, synthetic: has_synthetic_text(evs) && !eok, empty_solid: has_empty_solid(evs), eok, sok };
+    let (eok, sok, stok) = events_monitors(text, ilt, evs, &mut scratch);
+    let f = Findings { wikilink: evs.iter().any(|e| e.wiki) && !eok, synthetic: has_synthetic_text(evs) && !eok, empty_solid: has_empty_solid(evs), eok, sok, stok };
+    // the hypothesis of `mdParse_total` is a monitor on EVERY event list, set-aside ones included
+    out.monitors.push(("StartsOK: an event start ahead of the cursor is a char boundary inside the text".into(), stok));
     // an event list that matches a recorded pulldown-cmark finding and breaks the hypothesis is set
     // aside (counted; property failures on it are classed under the finding); on every other event
     // list the hypothesis is a monitor
@@ -242,9 +248,14 @@ pub fn reclass(fails: &mut [(String, String, Value)], f: &Findings) {
         if x.0.starts_with("c02-") {
             continue;
         }
+        // since the repairs in markdown.rs (slice clamp, final clamp pass) no token can be out of
+        // bounds: that class is never covered by a finding
+        if x.0 == "out-of-bounds" {
+            continue;
+        }
         if f.wikilink {
             x.0 = "c02-md-wikilink-events".into();
-        } else if f.synthetic && (x.0 == "out-of-bounds" || x.0 == "unordered-or-overlapping") {
+        } else if f.synthetic && x.0 == "unordered-or-overlapping" {
             x.0 = "c02-md-synthetic-text".into();
         } else if f.empty_solid && x.0 == "zero-width-nonstructural" {
             x.0 = "c02-md-empty-math".into();
@@ -266,7 +277,7 @@ pub fn eval_md(opname: &str, ilt: bool, text: &str) -> Out {
     let evline = evs.iter().map(|e| e.word.as_str()).collect::<Vec<_>>().join(" ");
     let fnd = findings_and_monitors(text, ilt, &evs, &mut out);
     // the harness's reading of the clauses against the model's own definitions
-    out.k.push((format!("evok | {} | {} | {}", if ilt { 1 } else { 0 }, chars_field(&src), evline), format!("ok {} {}", fnd.eok as u8, fnd.sok as u8)));
+    out.k.push((format!("evok | {} | {} | {}", if ilt { 1 } else { 0 }, chars_field(&src), evline), format!("ok {} {} {}", fnd.eok as u8, fnd.sok as u8, fnd.stok as u8)));
     let op = format!("{} | {} | {} | {}", opname, if ilt { 1 } else { 0 }, text_field(&src), evline);
     let front = format!("markdown{}(parser)", if ilt { "+ilt" } else { "" });
     match guarded(|| Markdown::new(md_opts(ilt)).parse(&src)) {
@@ -291,17 +302,10 @@ pub fn eval_md(opname: &str, ilt: bool, text: &str) -> Out {
             reclass(&mut out.fails[nf..], &fnd);
         }
         Err(e) => {
-            // a crash is C01's business (c01.rs runs the witnesses); K still compares `panic`
+            // `mdParse_total`: with sliceable starts (monitored above) the parser's own code cannot
+            // panic — a crash here is a failing input for that theorem and for C01
             out.k.push((op, "panic".into()));
-            out.counts.push(format!("md-parser-panicked(C01's business):{}", if fnd.wikilink { "pulldown wikilink event list" } else { "OTHER" }));
-            // … unless the event list satisfies EventsOK: then `mdParse_total` says the parser's own
-            // code cannot panic, and the input is a failing input for that theorem's correspondence
-            if fnd.eok {
-                out.fails.push(("md-parser-panic-under-EventsOK".into(), format!("Markdown::parse panicked on an event list that satisfies EventsOK: {}", e), json!({"frontend": front, "text": text})));
-            }
-            if std::env::var("HV_MD_DEBUG").is_ok() {
-                eprintln!("MD-PANIC {} {:?}", text.chars().count(), text);
-            }
+            out.fails.push(("md-parser-panic".into(), format!("Markdown::parse panicked (StartsOK = {}): {}", fnd.stok, e), json!({"frontend": front, "text": text})));
         }
     }
     out.counts.push(format!("{}:ilt={}", opname, ilt));
